@@ -57,7 +57,7 @@ func runQlenCase(w *wctx, q qlenCase) {
 	}
 	if q.v.label == "1<<31" {
 		hugeBegin()
-		defer hugeEnd()
+		defer hugeEnd(true)
 	}
 	pre := func(obj mangos.Socket) {}
 	if q.mode == "loaded" {
@@ -148,5 +148,6 @@ func qlenScenario() *scenario {
 		par:    14,
 		ncases: func(string) int { return len(qlenCases()) },
 		run:    func(tier string, idx int, w *wctx) { runQlenCase(w, qlenCases()[idx]) },
+		huge:   func(tier string, idx int) bool { return qlenCases()[idx].v.label == "1<<31" },
 	}
 }
